@@ -681,6 +681,22 @@ Example row_reaches_site_nonvacuous :
   key_side (mkres true "ASP" (-12) "A" false false) = "ASP -12 A".
 Proof. vm_compute. repeat split; reflexivity. Qed.
 
+(* ---- the pH that decides is the requested pH ---------------------------------------------------- *)
+
+Theorem requested_ph_decides : forall ff (ph : Q) rows rs,
+  run_titration ff ph rows rs = pipeline ff ph rows rs.
+Proof. reflexivity. Qed.
+
+(* with decide_spec: the side of the comparison is taken at the requested value itself,
+   so two requests on different sides of a pKa, however close, are decided differently *)
+Example requested_ph_full_resolution :
+  let row := mkpkarow "ASP" 2 "A" (propka_label "ASP" 2 "A") (38 # 10)%Q in
+  let r := mkres true "ASP" 2 "A" false false in
+  fst (run_titration Parse (3796 # 1000)%Q [row] [r]) = [Decided GASP (Patch P_ASH)] /\
+  fst (run_titration Parse (3799999 # 1000000)%Q [row] [r]) = [Decided GASP (Patch P_ASH)] /\
+  fst (run_titration Parse (38 # 10)%Q [row] [r]) = [Decided GASP (Keep false)].
+Proof. vm_compute. repeat split; reflexivity. Qed.
+
 (* ---- main.py: terminus rows never reach apply_pka_values --------------------------------------- *)
 
 Lemma dict_of_rows_acc : forall rows acc,
